@@ -273,6 +273,7 @@ class LinePoints:
         self.baton = None
         self.count = 0
         self.active = False
+        self.trace = None          # when a list: the (function, line) label of every point, in order
 
     def start(self):
         mon = sys.monitoring
@@ -287,6 +288,8 @@ class LinePoints:
         b = self.baton
         if b is not None:
             self.count += 1
+            if self.trace is not None:
+                self.trace.append((code.co_name, line))
             b.point('line')
 
     def stop(self):
